@@ -150,7 +150,8 @@ pub fn digest_tree(root: &Path) -> u64 {
             Node::Dir => f.write_str("D"),
             Node::Link { target } => {
                 f.write_str("L");
-                f.write_str(target);
+                // links into the world are spelled with the world's own root: make that root-independent
+                f.write_str(&target.replace(&*root.to_string_lossy(), "{ROOT}"));
             }
             Node::File { bytes, .. } => {
                 f.write_str("F");
